@@ -9,6 +9,7 @@ CONSTANTS
   IdsIdentifyContent = FALSE
   IncOf <- ZeroInc
   KeepHigherIncarnation = FALSE
+  ReuseUnattested = FALSE
   StateEarly = FALSE
   InitScenarios = {"fresh"}
   InitDocs = {}
